@@ -202,6 +202,13 @@ for g in _c01.GROUPS:
         g2 = dict(g); g2["name"] = "keep." + g["name"]; GROUPS.append(g2)
 # the zz_add.c contracts (defined in the C05 plan) belong to this property as well
 GROUPS += [g for g in _c05.GROUPS if g["name"].startswith("contract.zz_add")]
+# the repository's own test program with every blob allocated at exactly the requested size (blob pages of one octet):
+# states and stacks that the high-level functions size through *_keep()/*_deep() lose the 1 KiB slack that hides overruns
+GROUPS.append(G("exactblob.testsuite", "", "", [], level="N", backend="suite", native=False, timeout=1200,
+                rewrite=[("src/core/blob.c", r"#define BLOB_PAGE_SIZE 1024", "#define BLOB_PAGE_SIZE 1", 1)],
+                fn=["blobCreate", "blobResize", "bignStart_keep", "bakeBMQV_keep", "bakeBSTS_keep", "bakeBPACE_keep", "belsValM", "belsGenM0"],
+                note="the repository's test vectors only, but on exact-size state/stack blobs under ASan/UBSan; NOT proof. "
+                     "The rewrite is mechanical and must fire exactly once; pointer-overflow checks of UBSan are off (objShiftPtrs offsets a null pointer by design)"))
 TRUSTED = []
 ASSUMPTIONS = ["array lengths capped at 2^20 words (excludes only address-arithmetic overflow)"]
 NOT_COVERED = ["zm/gfp/gf2/ec/ecp/ec2 layers behind function-pointer tables and the state layouts built on them (bign, bake, btok, bels)"]
